@@ -11,7 +11,7 @@
      c_placeholders_single_sorted  no placeholder declared with two sorts *)
 From Coq Require Import List String ZArith Bool.
 Import ListNotations.
-From Anthem Require Import Syntax.Fol Syntax.Asp Model.Problem Model.Outline Model.Strong Model.External Proofs.ExternalOk.
+From Anthem Require Import Syntax.Fol Syntax.Asp Model.Problem Model.Outline Model.Strong Model.External Model.Tightness Model.PrivRec Model.Completion Proofs.ExternalOk Proofs.TasksClosed.
 Open Scope string_scope.
 
 Theorem C11_enforce :
@@ -24,6 +24,17 @@ Theorem C11_enforce :
     c_spec_assumptions_no_output t = true /\ c_placeholders_single_sorted t = true.
 Proof. exact enforce. Qed.
 Print Assumptions C11_enforce.
+
+(* the same with the analyses instantiated by their models (Model/Tightness.is_tight,
+   Model/PrivRec.has_private_recursion, Model/Completion.completion; exactness of these: C11tight, C04) *)
+Theorem C11_enforce_instantiated :
+  forall (tau_star : program -> theory) (simp_classic : formula -> formula) (t : ext_task) w pbs,
+    external_decompose is_tight has_private_recursion tau_star completion simp_classic t = Ok (w, pbs) ->
+    c_tight is_tight t = true /\ c_no_private_recursion has_private_recursion t = true /\
+    c_no_input_in_head t = true /\ c_io_disjoint t = true /\ c_ug_assumptions_inputs_only t = true /\
+    c_spec_assumptions_no_output t = true /\ c_placeholders_single_sorted t = true.
+Proof. exact enforce_instantiated. Qed.
+Print Assumptions C11_enforce_instantiated.
 
 (* a task that yields no problems is refused with an error value (or panics): the result type
    carries problems only in the Ok case, so nothing is emitted *)
